@@ -1,0 +1,25 @@
+//! Verification hooks.
+//!
+//! Only compiled with the `verif-hooks` cargo feature. Nothing in here changes the behaviour
+//! of the crate: the module re-exports crate-private items and provides read-only views of
+//! internal state so that an external verification harness can observe them.
+
+#[cfg(feature = "client")]
+pub use crate::happy_eyeballs::{EyeballSet, HappyEyeballsError};
+
+#[cfg(feature = "server")]
+pub use crate::rewind::Rewind;
+
+/// Read-only view of the pool state for one connection key.
+#[cfg(feature = "client")]
+#[derive(Debug, Clone)]
+pub struct PoolOrigin<R> {
+    /// Debug rendering of the key.
+    pub key: String,
+    /// Whether the key is marked as having a connection attempt in flight.
+    pub connecting: bool,
+    /// One entry per queued waiter, front to back: `true` if the receiver is closed.
+    pub waiting: Vec<bool>,
+    /// The idle connections, bottom of the stack first, mapped through the caller's projection.
+    pub idle: Vec<R>,
+}
